@@ -839,3 +839,18 @@ Proof.
     apply btrace_eqb_eq in H1, H2. split; [assumption|]. split; [assumption|].
     rewrite !btrace_eqb_refl. cbn [andb Nat.eqb]. now split.
 Qed.
+
+(* forms-only cases (degenerate option values): accepted iff the three forms' traces coincide *)
+Lemma forms_only :
+  (forall d1 d2 d3, ok (CFormsBuf d1 d2 d3) = true -> same_flushes d1 d2 /\ same_flushes d3 d2) /\
+  (forall d1 d2 d3 cross, ok (CFormsBat d1 d2 d3 cross) = true <-> d1 = d2 /\ d3 = d2 /\ cross = 0) /\
+  (forall m, ok (CFormsBuf m m m) = true).
+Proof.
+  split; [|split].
+  - intros d1 d2 d3 H. cbn [ok] in H. apply andb_prop in H as [H1 H2]. split; now apply flushes_eqb_same.
+  - intros d1 d2 d3 cross. cbn [ok]. split.
+    + intros H. apply andb_prop in H as [H H3]. apply andb_prop in H as [H1 H2].
+      apply btrace_eqb_eq in H1, H2. apply Nat.eqb_eq in H3. auto.
+    + intros (-> & -> & ->). now rewrite !btrace_eqb_refl.
+  - intros m. cbn [ok]. now rewrite !flushes_eqb_refl.
+Qed.
